@@ -121,7 +121,7 @@ Proof.
   - destruct (ready s); [|discriminate]. inversion Hs; subst. eapply inv_log_ext; [..|exact H]; reflexivity.
   - destruct (ready s); [|discriminate]. inversion Hs; subst. destruct ok; [exact H | eapply inv_log_ext; [..|exact H]; reflexivity].
   - destruct (ready s); [|discriminate]. inversion Hs; subst. eapply inv_log_ext; [..|exact H]; reflexivity.
-  - destruct (ready s); [|discriminate]. inversion Hs; subst. apply inv_log_close_all; [exact F1 | apply HI | exact H].
+  - destruct (ready0 s); [|discriminate]. inversion Hs; subst. apply inv_log_close_all; [exact F1 | apply HI | exact H].
   - destruct (st_pend s); [|discriminate]. destruct (st_closed s); [discriminate|]. inversion Hs; subst.
     eapply inv_log_ext; [..|exact H]; reflexivity.
   - destruct (st_runners s rid) as [r|]; [|discriminate]. destruct (is_live r); [|discriminate]. inversion Hs; subst.
@@ -136,7 +136,9 @@ Proof.
     destruct (find_id id (st_subs s1)) eqn:E; [|exact H1].
     destruct (Nat.eqb n rid) eqn:E2; [|exact H1].
     apply Nat.eqb_eq in E2. subst n. apply inv_log_close_entry; [exact H1 | apply find_id_In; exact E].
-  - destruct (ready s); [|discriminate]. inversion Hs; subst. apply inv_log_close_all; [exact F1 | apply HI | exact H].
+  - destruct (ready0 s); [|discriminate]. inversion Hs; subst. apply inv_log_close_all; [exact F1 | apply HI | exact H].
+  - inversion Hs; subst; exact H.
+  - inversion Hs; subst. eapply inv_log_ext; [..|exact H]; reflexivity.
 Qed.
 
 Theorem run_inv_log cfg h : log_fixes cfg -> forall s s', Inv s -> inv_log s -> run cfg s h = Some s' -> inv_log s'.
@@ -231,7 +233,7 @@ Proof.
   - destruct (ready s); [|discriminate]. injection Hs as Hs'. apply Same; rewrite <- Hs'; reflexivity.
   - destruct (ready s); [|discriminate]. injection Hs as Hs'. apply Same; rewrite <- Hs'; destruct ok; reflexivity.
   - destruct (ready s); [|discriminate]. injection Hs as Hs'. apply Same; rewrite <- Hs'; reflexivity.
-  - destruct (ready s); [|discriminate]. injection Hs as Hs'. rewrite <- Hs'. unfold sub_count, close_all; cbn. lia.
+  - destruct (ready0 s); [|discriminate]. injection Hs as Hs'. rewrite <- Hs'. unfold sub_count, close_all; cbn. lia.
   - destruct (st_pend s); [|discriminate]. destruct (st_closed s); [discriminate|]. injection Hs as Hs'.
     apply Same; rewrite <- Hs'; reflexivity.
   - destruct (st_runners s rid) as [r|]; [|discriminate]. destruct (is_live r); [|discriminate]. injection Hs as Hs'.
@@ -244,7 +246,9 @@ Proof.
       destruct (Nat.eqb n rid); [apply (Rem id) | apply Same]; rewrite <- Hs'; reflexivity.
     + unfold close_id in Hs'. cbn [st_subs set_tasks] in Hs'.
       destruct (find_id id (st_subs s)); [apply (Rem id) | apply Same]; rewrite <- Hs'; reflexivity.
-  - destruct (ready s); [|discriminate]. injection Hs as Hs'. rewrite <- Hs'. unfold sub_count, close_all; cbn. lia.
+  - destruct (ready0 s); [|discriminate]. injection Hs as Hs'. rewrite <- Hs'. unfold sub_count, close_all; cbn. lia.
+  - injection Hs as Hs'. apply Same; rewrite <- Hs'; reflexivity.
+  - injection Hs as Hs'. apply Same; rewrite <- Hs'; reflexivity.
 Qed.
 
 Theorem reachable_inv_limit cfg s : c_fix_mutdup cfg = true -> reachable cfg s -> inv_limit cfg s.
